@@ -1,4 +1,5 @@
 mod cli;
+mod full;
 mod rt;
 mod search;
 mod srv;
